@@ -154,9 +154,9 @@ def random_workload(rng, nrpc, pool, split=None, statuses=((0, "", 0),), with_md
             sp = False
         kw = {}
         if with_md:
-            kw["md"] = MD_POOL[rng.choice(["h1", "h2", "multi", "bin", "empty"])]
-            kw["hdrs"] = [rng.choice(["h1", "h2", "multi", "bin"]) for _ in range(rng.randint(0, 2))]
-            kw["trls"] = [rng.choice(["t1", "t2", "bin"]) for _ in range(rng.randint(0, 2))]
+            kw["md"] = MD_POOL[rng.choice(["h1", "h2", "multi", "long", "empty"])]
+            kw["hdrs"] = [rng.choice(["h1", "h2", "multi", "long"]) for _ in range(rng.randint(0, 2))]
+            kw["trls"] = [rng.choice(["t1", "t2", "multi"]) for _ in range(rng.randint(0, 2))]
             kw["opts"] = rng.choice([[], ["hdr", "trl"], ["trl"], ["hdr"]])
         st = rng.choice(list(statuses))
         resp = rng.choice(pool)
@@ -301,4 +301,106 @@ def fam_shutdown(seed, maxk, dirs=("fwd", "rev"), policies=("eager", "lazy")):
                              meta={"family": "shutdown"})
                 s["late"] = [late1, late2]
                 out.append(s)
+    return out
+
+
+STATUS_POOL = [(0, "", 0)] + [(c, "m%d" % c, c % 3) for c in range(1, 17)] + [(2, "unicode \u00e9\u4e16", 0), (13, "long " + "x" * 500, 2)]
+
+
+def fam_meta(seed, n, dirs=("fwd", "rev"), gated=True):
+    """status / headers / trailers / request metadata: every order of handler
+    calls (SetHeader, SendHeader, Send, SetTrailer, return), metadata and status
+    values from the pool, call-option combinations, caller reads of Header and
+    Trailer interleaved with frame delivery; plus gated runs holding the
+    caller-side finish between its sub-steps"""
+    rng = random.Random(seed)
+    out = []
+    mds = ["h1", "h2", "multi", "long", "empty", "none"]
+    cl = cfgs(dirs, ("fc", "nofc"))
+    for i in range(n):
+        cname, cfg = cl[i % len(cl)]
+        shape = rng.choice(["unary_invoke", "cstream", "sstream", "bidi", "bidi"])
+        st = STATUS_POOL[(i + seed) % len(STATUS_POOL)]
+        md = MD_POOL[rng.choice(mds)]
+        opts = rng.choice([[], ["hdr"], ["trl"], ["hdr", "trl"], ["hdr", "trl", "peer"], ["hdr", "trl", "creds"], ["creds"]])
+        # handler: a random order of header/trailer/send ops before the return
+        hops = []
+        for _ in range(rng.randint(0, 4)):
+            k = rng.choice(["sethdr", "sethdr", "sendhdr", "settrl", "send"])
+            if k in ("sethdr", "sendhdr"):
+                hops.append(op(k, md=MD_POOL[rng.choice(mds[:5])]))
+            elif k == "settrl":
+                hops.append(op("settrl", md=MD_POOL[rng.choice(["t1", "t2", "multi", "empty"])]))
+            elif shape in ("sstream", "bidi"):
+                hops.append(op("send", n=rng.choice([0, 5, 300])))
+        nsend = sum(1 for o in hops if o["op"] == "send")
+        new = op("invoke" if shape == "unary_invoke" else "new", shape=("unary" if shape == "unary_invoke" else shape), opts=opts)
+        if md is not None:
+            new["md"] = md
+        ret = op("ret", code=st[0], msg=st[1], det=st[2])
+        if shape == "unary_invoke":
+            new["n"] = 7
+            ret["n"] = 4
+            hops = [o for o in hops if o["op"] != "send"]
+            rs = {"rpc": 1, "c": {"m": [new]}, "s": {"m": [op("recv")] + hops + [ret]}}
+        else:
+            csend = [op("send", n=9)] if shape in ("cstream", "bidi", "sstream") else []
+            if shape == "cstream":
+                hops.append(op("send", n=3))
+                nsend += 1
+            creads = []
+            for _ in range(nsend + 1):
+                creads.append(op("recv"))
+                if rng.random() < 0.4:
+                    creads.append(op("header"))
+            if rng.random() < 0.5:
+                creads.insert(0, op("header"))
+            creads.append(op("trailer"))
+            nsr = 2 if shape in ("cstream", "bidi") else 1
+            rs = {"rpc": 1, "c": {"m": [new] + csend + [op("half")], "a": creads},
+                  "s": {"m": [op("recv") for _ in range(nsr)] + hops + [ret]}}
+        pol = {"kind": rng.choice(["random", "eager", "lazy"]), "seed": rng.randrange(1 << 30), "max": 400}
+        out.append(scenario("meta-%s-%d" % (cname, i), cfg, [rs, rpc_script(2, "unary_invoke", [3], resp=2)], pol,
+                            meta={"family": "meta", "done": [1, 2]}))
+    # call options without any outgoing metadata (per-RPC credentials alone)
+    for cname, cfg in cfgs(dirs, ("fc",)):
+        for shape in ("unary_invoke", "bidi"):
+            for opts in (["creds", "nomd"], ["nomd"], ["creds", "nomd", "hdr", "trl", "peer", "chan"]):
+                rs = rpc_script(1, shape, [5], [4] if shape == "bidi" else [], opts=opts, hdrs=["h1"], trls=["t1"])
+                out.append(scenario("meta-nomd-%s-%s-%s" % (cname, shape, "+".join(opts)), cfg, [rs],
+                                    {"kind": "eager", "seed": seed, "max": 200}, meta={"family": "meta", "done": [1] if "creds" in opts else []}))
+    # binary metadata values that are not valid UTF-8 (legal under "-bin" keys)
+    for cname, cfg in cfgs(dirs, ("fc",)):
+        for where in ("md", "hdrs", "trls"):
+            kw = {where: MD_POOL["bin"] if where == "md" else ["bin"]}
+            rs = rpc_script(1, "bidi", [5], [4], **kw)
+            out.append(scenario("meta-bin-%s-%s" % (cname, where), cfg, [rs, rpc_script(2, "unary_invoke", [3], resp=2)],
+                                {"kind": "eager", "seed": seed, "max": 200}, meta={"family": "meta-bin"}))
+    if gated:
+        # hold the caller's receive loop between the sub-steps of finishing a
+        # stream while the application reads the terminal result and the trailers
+        for cname, cfg in cfgs(dirs, ("fc", "nofc")):
+            for point in ["cli.finish.cas", "cli.finish.removed", "cli.finish.rcvclosed"]:
+                for shape in ["bidi", "sstream"]:
+                    c = dict(cfg, gates=[point])
+                    steps = copy.deepcopy(PREFIX) + [
+                        {"do": "op", "end": "c", "rpc": 1, "op": "new", "shape": shape, "opts": ["hdr", "trl"]},
+                        {"do": "op", "end": "c", "rpc": 1, "op": "send", "n": 5},
+                        {"do": "op", "end": "c", "rpc": 1, "op": "half"},
+                        {"do": "drain"},
+                        {"do": "op", "end": "s", "rpc": 1, "op": "recv"},
+                        {"do": "op", "end": "s", "rpc": 1, "op": "sethdr", "md": MD_POOL["h1"]},
+                        {"do": "op", "end": "s", "rpc": 1, "op": "send", "n": 6},
+                        {"do": "op", "end": "s", "rpc": 1, "op": "settrl", "md": MD_POOL["t1"]},
+                        {"do": "op", "end": "s", "rpc": 1, "op": "ret", "code": 0},
+                        {"do": "op", "end": "c", "rpc": 1, "act": "a", "op": "recv"},
+                        {"do": "drain"},              # the close frame is delivered; the receive loop parks at the gate
+                        {"do": "op", "end": "c", "rpc": 1, "act": "a", "op": "recv"},   # terminal result + trailers
+                        {"do": "op", "end": "c", "rpc": 1, "act": "m", "op": "trailer"},
+                        {"do": "release", "point": point, "sid": 1},
+                        {"do": "op", "end": "c", "rpc": 1, "act": "m", "op": "trailer"},
+                        {"do": "drain"},
+                    ]
+                    out.append({"name": "meta-gated-%s-%s-%s" % (cname, point, shape), "cfg": c, "steps": steps,
+                                "meta": {"family": "meta-gated"}})
     return out
